@@ -24,6 +24,29 @@ def insert_paths(repo):
     return f, paths, oshape, fshape, foff
 
 
+def _fast_path_cond(c, oshape, fshape, foff):
+    """and(eq(field.shape, out.shape), array_equal(field.offset, [0, 0])) in any order."""
+    a = c.single_atom() if isinstance(c, Poly) else None
+    if a is None or not is_app(a, 'and') or len(a[2]) != 2:
+        return False
+    has_shape = has_off = False
+    for t in a[2]:
+        ta = t.single_atom() if isinstance(t, Poly) else None
+        if ta is None:
+            continue
+        if is_app(ta, 'eq'):
+            vals = {nf.vkey(x) for x in ta[2]}
+            from ..npmodel import P
+            has_shape = has_shape or vals == {nf.vkey(P(fshape)), nf.vkey(P(oshape))} or \
+                vals == {nf.vkey(P(Tup(fshape.items, 'vec'))), nf.vkey(P(Tup(oshape.items, 'vec')))}
+        if is_app(ta, 'array_equal'):
+            from ..npmodel import P
+            zero = Tup([C(0), C(0)], 'list')
+            vals = {nf.vkey(x) for x in ta[2]}
+            has_off = has_off or vals == {nf.vkey(foff), nf.vkey(zero)} or vals == {nf.vkey(P(foff)), nf.vkey(P(zero))}
+    return has_shape and has_off
+
+
 def boundary_fold(chk, repo, clause):
     f, paths, _ = analyse(repo, 'field.boundary')
     rets = returns(paths)
@@ -79,6 +102,8 @@ def boundary_fold(chk, repo, clause):
 
 
 def run(chk, repo, tier):
+    from .common import no_hidden_state
+    no_hidden_state(chk, repo, 'C06')
     chk.clause('C06-a', 'bounding-box folds start from an identity of the fold (extents may be negative)', 4)
     chk.clause('C06-b', 'extent identities; merge offset/shape/slices consistent with the bounding box', 14)
     chk.clause('C06-c', 'insert alignment invariant on all clipping paths (both axes)', 16)
@@ -142,6 +167,12 @@ def run(chk, repo, tier):
             raise AnalysisError(f'field.insert: expected exactly one store into out per path, got {len(ws)}')
         key = ws[0].data['key']
         if key == nf.ELLIPSIS:
+            # the whole-array fast path is only legitimate for an equally shaped, un-shifted field
+            conds = [(c, pol) for c, pol, _ in p.conds if fmt(c) != 'intensity']
+            good = len(conds) == 1 and conds[0][1] is True and _fast_path_cond(conds[0][0], oshape, fshape, foff)
+            chk.ob('C06-c', 'D-guard', 'field.insert', 'whole-array fast path only for equal shape and zero offset', good,
+                   f'fast path taken when {fmt(conds[0][0]) if conds else "always"}; it must require field.shape == out.shape '
+                   f'and field.offset == (0, 0) on both axes', f.loc(ws[0].node))
             continue
         if not (isinstance(key, Tup) and len(key) == 2 and all(isinstance(s, Slice) for s in key.items)):
             raise AnalysisError(f'field.insert: out slice not understood: {fmt(key)}')
@@ -171,23 +202,29 @@ def run(chk, repo, tier):
     # ---------------------------------------------------------------- C06-d
     f, paths, _ = analyse(repo, 'field._mul_broadcast')
     ad, ao, bd, bo = S('a_data'), S('a_offset'), S('b_data'), S('b_offset')
-    seen_a = seen_b = False
-    ok_a = ok_b = True
-    for p in returns(paths):
-        r = p.ret.items
-        ca = any(pol and fmt(c) == 'eq(a_data.size, 1)' for c, pol, _ in p.conds)
-        cb = any(pol and 'eq(b_data.size, 1)' in fmt(c) or pol and fmt(c).startswith('eq(') and 'b_data' in fmt(c) and '.size' in fmt(c)
-                 for c, pol, _ in p.conds)
-        if r[0] != ad:
-            seen_a = True
-            ok_a = ok_a and r[1] == bo and r[0] == nf.app('broadcast_to', ad, nf.attr(bd, 'shape'))
-        if r[2] != bd:
-            seen_b = True
-            a_now = r[0]
-            ok_b = ok_b and r[3] == r[1] and r[2] == nf.app('broadcast_to', bd, nf.attr(a_now, 'shape') if a_now == ad
-                                                            else nf.attr(a_now, 'shape'))
-    chk.ob('C06-d', 'N-twin', f.key, 'scalar a inherits b\'s shape and offset', seen_a and ok_a, '', f.loc())
-    chk.ob('C06-d', 'N-twin', f.key, 'scalar b inherits a\'s shape and offset', seen_b and ok_b, '', f.loc())
+    sw = {('sym', 'a_data'): bd, ('sym', 'b_data'): ad, ('sym', 'a_offset'): bo, ('sym', 'b_offset'): ao}
+    rets = returns(paths)
+    only_a = [p for p in rets if p.ret.items[0] != ad and p.ret.items[2] == bd]
+    only_b = [p for p in rets if p.ret.items[2] != bd and p.ret.items[0] == ad]
+    ok_a = len(only_a) == 1 and only_a[0].ret.items[1] == bo and \
+        only_a[0].ret.items[0] == nf.app('broadcast_to', ad, nf.attr(bd, 'shape'))
+    ok_b = len(only_b) == 1 and only_b[0].ret.items[3] == ao and \
+        only_b[0].ret.items[2] == nf.app('broadcast_to', bd, nf.attr(ad, 'shape'))
+    chk.ob('C06-d', 'N-twin', f.key, 'scalar a inherits b\'s shape and offset', ok_a, '', f.loc())
+    chk.ob('C06-d', 'N-twin', f.key, 'scalar b inherits a\'s shape and offset', ok_b, '', f.loc())
+    # the two cases are mirror images: the test that makes a "one element" is the test that makes b one
+    def scalar_test(p, who):
+        out = []
+        for c, pol, _ in p.conds:
+            if pol and ('sym', who) in nf.value_atoms(c) and not ('sym', 'a_data' if who == 'b_data' else 'b_data') in nf.value_atoms(c):
+                out.append(c)
+        return out
+    ta = scalar_test(only_a[0], 'a_data') if only_a else []
+    tb = scalar_test(only_b[0], 'b_data') if only_b else []
+    mirror = len(ta) == 1 and len(tb) == 1 and nf.subst_value(ta[0], sw) == tb[0]
+    size1 = mirror and ta[0] == nf.app('eq', nf.attr(ad, 'size'), C(1))
+    chk.ob('C06-d', 'N-twin', f.key, 'both operands are recognised as one-element fields by the same test (size == 1)',
+           bool(mirror and size1), f'a: {[fmt(t) for t in ta]}; b: {[fmt(t) for t in tb]}', f.loc())
     fm = repo.func('field.Field._mul_array')
     _, paths, _ = analyse(repo, fm)
     okm, det, nn = True, '', 0
@@ -257,6 +294,21 @@ def run(chk, repo, tier):
     chk.ob('C06-f', 'structural', fd.key, 'an intersecting pair is merged and the scan restarts', ok_rec,
            'return inside the pair loop is the recursive call guarded by intersect(...)' if ok_rec else
            'the pair loop does not restart after merging an intersecting pair', fd.loc())
+    # the merged group's extent must be recomputed from the group *after* the new members joined it
+    ok_ord, n_ord = True, 0
+    for p in inloop:
+        ext = [i for i, e in enumerate(p.events) if e.kind == 'write' and e.data.get('how') == 'method:extend']
+        bnd = [i for i, e in enumerate(p.events) if e.kind == 'call' and e.data.get('callee') == 'field.boundary']
+        st = [i for i, e in enumerate(p.events) if e.kind == 'write' and e.data.get('how') == 'setitem'
+              and e.data.get('key') == nf.Const('extent')]
+        n_ord += 1
+        good = len(ext) == 1 and len(bnd) == 1 and len(st) == 1 and ext[0] < bnd[0] < st[0]
+        if good:
+            e_ext, e_b, e_st = p.events[ext[0]], p.events[bnd[0]], p.events[st[0]]
+            good = e_b.bound.get('fields') == e_ext.target and e_st.data.get('value') == e_b.data.get('result')
+        ok_ord = ok_ord and good
+    chk.ob('C06-f', 'D-order', fd.key, 'group extent = boundary(group) computed after the group was extended', ok_ord and n_ord > 0,
+           'the extent of a merged group is not the bounding box of all its members', fd.loc())
     ok_fin = len(final) == 1 and root_sym(final[0].ret) == 'fields' or \
         (len(final) == 1 and isinstance(final[0].ret, Poly) and final[0].ret.single_atom() is not None
          and final[0].ret.single_atom()[0] in ('loop', 'sym'))
